@@ -62,6 +62,35 @@ def deriv_check(tier="quick", seed=0, only=None):
                             failures.append(dict(label="C19:wrong_jacobian_entry_not_pinpointed", input=inp, observed=(int(e.col_index), [int(v) for v in e.invalid_indices])))
                     except Exception as e:  # noqa
                         failures.append(dict(label=f"C19:unexpected_{type(e).__name__}", input=inp, observed=str(e)[:200]))
+            # a FORGOTTEN entry: the true non-zero is simply not stored (its column may become structurally empty)
+            J0 = mk().cons_jac(np.clip(np.zeros(n) if x0 is None else x0, base.var_lb, base.var_ub)).toarray() if m else np.zeros((0, n))
+            for r in range(m):
+                for c in range(n):
+                    if J0[r, c] == 0.0 or abs(J0[r, c]) <= 1e-3:
+                        continue
+                    inp = dict(scenario=name, kind="jacobian-missing-entry", row=r, col=c)
+                    if only is not None and only != inp:
+                        continue
+                    p = mk()
+                    orig = p.cons_jac
+
+                    def miss(x, orig=orig, r=r, c=c):
+                        J = orig(x).toarray()
+                        J[r, c] = 0.0
+                        M = sp.csc_matrix(J)
+                        M.eliminate_zeros()
+                        return M
+
+                    p.cons_jac = miss
+                    cases += 1
+                    try:
+                        Solver(p, pa).solve(x0, y0)
+                        failures.append(dict(label="C19:missing_jacobian_entry_accepted", input=inp, observed="no error"))
+                    except DerivError as e:
+                        if e.col_index != c or r not in list(e.invalid_indices):
+                            failures.append(dict(label="C19:missing_jacobian_entry_not_pinpointed", input=inp, observed=(int(e.col_index), [int(v) for v in e.invalid_indices])))
+                    except Exception as e:  # noqa
+                        failures.append(dict(label=f"C19:unexpected_{type(e).__name__}", input=inp, observed=str(e)[:200]))
             for c in range(n):
                 inp = dict(scenario=name, kind="gradient", col=c, error=mag)
                 if only is not None and only != inp:
